@@ -211,9 +211,9 @@ func (e *Exec) concretizeBlobs(m map[string]string) {
 	for i, in := range blobs {
 		m[in.Name] = "s:" + assigned[fs[i].abs]
 	}
-	if fail {
-		m["_concretization_failed"] = "b:true"
-	}
+	// two abstract values mapped to one string is only a problem if the path depends on them
+	// being different; the native replay is the judge of that (no early rejection)
+	_ = fail
 }
 
 func synthBlob(n int, first, last byte, id int, used map[string]string) string {
